@@ -414,3 +414,9 @@ Theorem C15_reinit_interleaved_refuted :
   ~ reinit_interleaved_claim (std_lookup Local true) (std_register Swap) [INewLock; IClear Swap; IResetAdapters].
 Proof. exact reinit_interleaved_refuted. Qed.
 Print Assumptions C15_reinit_interleaved_refuted.
+
+(* ---- last round ---- *)
+Theorem C15_facts_excview_forward_clear :
+  add_exception_view_forwards = true /\ clear_mode_registry = Swap /\ clear_mode_fallback = Swap.
+Proof. exact facts_excview_forward_clear. Qed.
+Print Assumptions C15_facts_excview_forward_clear.
